@@ -34,7 +34,7 @@ def dohFaultOf (id : Nat) (toks : List String) : Option DohFault :=
       -- the body reader reports an error (unexpected EOF), the message is NOT complete
       some (.status 200 [.data [0], .fail])
   | ["trickle"] => some (.status 200 [.data [0], .fail])
-  | ["hang"] | ["reset"] | ["stall"] | ["abort"] => some .transportError
+  | ["hang"] | ["reset"] | ["stall"] | ["abort"] | ["hshang"] => some .transportError
   | _ => none
 
 def dgramOf (id : Nat) (s : String) : Option Arrival :=
